@@ -26,9 +26,21 @@ CHECKS = {
         "covers": ["C08/buy-succeeds", "C08/buy-fails", "C08/buy-ownership-moved"],
         "assumptions": A_COMMON + A_STORE + A_BANK + ["A-COINSTR: ParseCoinNormalized(Coin.String()) returns the coin"],
     },
+    "C09": {
+        "groups": [{"pkgs": "./x/rns/keeper", "fns": ["VH_C09_*"]}],
+        "covers": ["C09/bid-succeeds", "C09/cancel-succeeds", "C09/accept-succeeds", "C09/register-buy-succeeds"],
+        "assumptions": A_COMMON + A_STORE + A_BANK + ["A-COINS1: a stored price string is a single canonical coin (written from Coin.String()) or does not parse"],
+    },
+    "C16": {
+        "groups": [{"pkgs": "./x/rns/keeper", "fns": ["VH_C16_*"]}],
+        "covers": ["C16/register-succeeds", "C16/register-fails", "C16/renewal-of-live-name"],
+        "assumptions": A_COMMON + A_STORE + A_BANK,
+    },
     "C13": {
         "groups": [{"pkgs": "./x/jklmint/utils", "fns": ["VH_C13_*"]}],
         "covers": ["C13/kernel-reached", "C13/owed-reached"],
         "assumptions": A_COMMON,
     },
 }
+
+NOT_APPLICABLE = {}
